@@ -9,11 +9,14 @@ mod dump;
 mod fam_board;
 mod fam_table;
 mod fam_history;
+mod fam_engine;
+mod fam_ref;
+mod fam_pgn;
 mod gen;
 include!("families.rs");
 
 fn main() {
-    std::panic::set_hook(Box::new(|_| {}));
+    if std::env::var_os("INK_PANIC_VERBOSE").is_none() { std::panic::set_hook(Box::new(|_| {})); }
     let args: Vec<String> = std::env::args().collect();
     match args.get(1).map(|s| s.as_str()) {
         Some("dump") => dump::dump(),
@@ -27,6 +30,7 @@ fn main() {
                 let line = line.expect("utf8 line");
                 let obs = f(&line);
                 writeln!(out, "{}", obs).unwrap();
+                out.flush().unwrap();
             }
         }
         Some("gen") => gen::gen(&args[2..]),
